@@ -70,6 +70,10 @@ def build_databases(root):
                        {'subcategorizationFrame': 'F two', 'senses': [f'{P}s{i}b']},
                        {'subcategorizationFrame': f'F three {i % 2}'}]
         ents.append(e)
+    # three nouns that one inflected form ('axes') lemmatizes to, for multi-candidate searches
+    for lemma in ('ax', 'axe', 'axis'):
+        ents.append(mk.entry(f'{P}e-{lemma}', lemma, 'n', senses=[mk.sense(f'{P}s-{lemma}', f'{P}ss-{lemma}')]))
+        syns.append(mk.synset(f'{P}ss-{lemma}', 'n', '', relations=[mk.rel(f'{P}ss7', 'hypernym')]))
     tax = mk.lexicon('t', '1', entries=ents, synsets=syns)
     d = os.path.join(root, 'tax')
     os.makedirs(d)
@@ -149,6 +153,10 @@ def items(dirs):
     corpus = ['word0', 'word1', 'word1', 'word3', 'zzz', 'words2']
     add('ic:compute', 'tax', lambda: wn.ic.compute(corpus, W(lexicon='t:1')))
     add('ic:compute(nodistribute)', 'tax', lambda: wn.ic.compute(corpus, W(lexicon='t:1'), distribute_weight=False, smoothing=0.5))
+    # the same lexicon under different expand settings (results must not depend on what ran before)
+    for ex in ('', 'a:1', 'a:1 c:1'):
+        add(f'ic:compute:uni:b:1:expand={ex!r}', 'uni', lambda ex=ex: wn.ic.compute(['alfa', 'alpha', 'alpha'], W(lexicon='b:1', expand=ex)))
+        add(f'tax:paths:uni:b:1:expand={ex!r}', 'uni', lambda ex=ex: (lambda w: [[x, x.hypernyms(), x.hypernym_paths(), x.max_depth()] for x in w.synsets()])(W(lexicon='b:1', expand=ex)))
     for a, b in pairs[:4]:
         add(f'sim:res/jcn/lin({a},{b})', 'tax', lambda a=a, b=b: (lambda w, f: [sim.res(ss(w, a), ss(w, b), f), sim.jcn(ss(w, a), ss(w, b), f), sim.lin(ss(w, a), ss(w, b), f)])(W(lexicon='t:1'), wn.ic.compute(corpus, W(lexicon='t:1'))))
     # --- queries on every database
@@ -170,6 +178,8 @@ def items(dirs):
     # --- morphy
     add('morphy:uninit', 'tax', lambda: [Morphy()(q, p) for q in ('words1', 'axes', 'boxing', 'taller') for p in (None, 'n', 'v')])
     add('morphy:init', 'tax', lambda: (lambda w: (lambda m: [m(q, p) for q in ('words1', 'word2s', 'word1', 'words0') for p in (None, 'n', 'v')])(Morphy(w)))(W(lexicon='t:1')))
+    add('morphy:search:multi-candidate', 'tax', lambda: (lambda w: [w.words('axes'), w.senses('axes'), w.synsets('axes'), w.words('axes', 'n')])(W(lexicon='t:1', lemmatizer=Morphy(W(lexicon='t:1')))))
+    add('morphy:search:multi-candidate:uninit', 'tax', lambda: (lambda w: [w.words('axes'), w.synsets('axes')])(W(lexicon='t:1', lemmatizer=Morphy())))
     add('morphy:search', 'tax', lambda: (lambda w: [w.words('words1'), w.synsets('word2s'), w.senses('word0')])(W(lexicon='t:1', lemmatizer=Morphy())))
     # --- validate
     from wnmc.props import c18
